@@ -35,6 +35,7 @@ type TLCRun struct {
 	Coverage   bool              // -coverage 1
 	NoDeadlock bool              // -deadlock (disable deadlock checking) in addition to the cfg
 	OnLine     func(tag, json string)
+	OnRaw      func(line string) // every other output line
 	Tags       []string // tags of PrintT lines to extract, e.g. "CASE"
 }
 
@@ -176,6 +177,9 @@ func RunTLC(scratch string, r TLCRun) *TLCResult {
 				}
 			}
 			if !handled {
+				if r.OnRaw != nil {
+					r.OnRaw(line)
+				}
 				if m := reStates.FindStringSubmatch(line); m != nil {
 					res.Generated, _ = strconv.ParseInt(m[1], 10, 64)
 					res.Distinct, _ = strconv.ParseInt(m[2], 10, 64)
